@@ -17,7 +17,7 @@ import random
 from harness import core, learners as L, xlearner as X
 
 MODULES = ["AdaptiveProofs.Props.C09"]
-KINDS = ["l1d", "l1d_curv", "l1d_vec", "l1d_tri", "lnd2", "lnd3", "l2d", "avg", "avg1d", "seq", "integ",
+KINDS = ["l1d", "l1d_curv", "l1d_vec", "l1d_tri", "lnd2", "lnd3", "lnd4", "lnd2_curv", "l2d", "avg", "avg1d", "seq", "integ",
          "bal:l1d", "bal:seq", "bal:avg", "bal:lnd2", "bal:cycle:l1d", "bal:cycle:seq", "bal:npoints:avg", "bal:loss:l1d", "bal:ds:l1d", "bal:cycle:ds:seq", "ds:l1d", "ds:seq", "ds:lnd2"]
 
 
